@@ -22,6 +22,8 @@ package objects
 
 import (
 	"time"
+
+	"github.com/apache/yunikorn-core/pkg/common/resources"
 )
 
 // Verification hooks (build tag verif): deterministic access to the timers and timing variables.
@@ -93,6 +95,38 @@ func (sq *Queue) VerifQuotaPreemptionState() (bool, bool, bool) {
 	sq.RLock()
 	defer sq.RUnlock()
 	return !sq.quotaPreemptionStartTime.IsZero(), !sq.quotaPreemptionStartTime.IsZero() && !time.Now().Before(sq.quotaPreemptionStartTime), sq.isQuotaPreemptionRunning
+}
+
+// VerifPeek returns the allocated and the maximum resources of the queue WITHOUT taking the queue lock. It is only for a
+// caller that knows that no other goroutine is running: the interleaving explorer looks at the books between two steps,
+// when every goroutine of the core is parked in front of a lock (and may hold this queue's lock).
+func (sq *Queue) VerifPeek() (map[string]int64, map[string]int64) {
+	cp := func(r *resources.Resource) map[string]int64 {
+		if r == nil {
+			return nil
+		}
+		m := make(map[string]int64, len(r.Resources))
+		for k, v := range r.Resources {
+			m[k] = int64(v)
+		}
+		return m
+	}
+	return cp(sq.allocatedResource), cp(sq.maxResource)
+}
+
+// VerifPeek returns the allocated and available resources of the node WITHOUT taking the node lock (see Queue.VerifPeek).
+func (sn *Node) VerifPeek() (map[string]int64, map[string]int64) {
+	cp := func(r *resources.Resource) map[string]int64 {
+		if r == nil {
+			return nil
+		}
+		m := make(map[string]int64, len(r.Resources))
+		for k, v := range r.Resources {
+			m[k] = int64(v)
+		}
+		return m
+	}
+	return cp(sn.allocatedResource), cp(sn.availableResource)
 }
 
 // VerifQuotaPreemptionStart returns the moment from which quota change preemption may run for this queue (zero: not set).
